@@ -201,12 +201,14 @@ int client_op(char code) {
   }
 }
 
+int g_epoch_offset = 0;
+
 void obs_state(Exec& ex, int t, char code) {
   const auto w = unodb::qsbr::instance().get_state();
   int nf = 0;
   for (bool f : ex.freed) nf += f ? 1 : 0;
   ex.obs += " " + std::to_string(t + 1) + code + ":" +
-            std::to_string(unodb::qsbr_state::get_epoch(w).get_val()) + "," +
+            std::to_string((unodb::qsbr_state::get_epoch(w).get_val() + 4U - static_cast<unsigned>(g_epoch_offset & 3)) & 3U) + "," +
             std::to_string(unodb::qsbr_state::get_thread_count(w)) + "," +
             std::to_string(unodb::qsbr_state::get_threads_in_previous_epoch(w)) + "," + std::to_string(nf);
 }
@@ -425,10 +427,15 @@ int main(int argc, char** argv) {
     else if (a == "--threads" && i + 1 < argc) rthreads = std::atoi(argv[++i]);
     else if (a == "--objs" && i + 1 < argc) robjs = std::atoi(argv[++i]);
     else if (a == "--budget" && i + 1 < argc) rbudget = std::atoi(argv[++i]);
+    else if (a == "--epoch-offset" && i + 1 < argc) g_epoch_offset = std::atoi(argv[++i]);
   }
   FILE* evf = evp ? std::fopen(evp, "w") : stdout;
   FILE* obsf = obsp ? std::fopen(obsp, "w") : nullptr;
   if (!evf) return 2;
+  // --epoch-offset k: the only registered thread passes through k quiescent states first, each of which advances
+  // the global epoch: the executions then start from epoch k instead of 0, so that the 2-bit epoch wraps around
+  // within the few epoch changes an execution makes (a long-running process is an ordinary state)
+  for (int i = 0; i < g_epoch_offset; ++i) unodb::this_thread().quiescent();
   // the main thread leaves QSBR: every execution starts from "no thread registered"
   unodb::this_thread().qsbr_pause();
 
